@@ -31,6 +31,19 @@ def run(ctx):
     jobs += j
     ctx.stats['forms'] = kinds
     jobs += suites.core_suite(ctx, ctx.budget(160, 2500), configs=((2, 100, False), (3, 40, False), (4, 30, False), (8, 12, False)), faults=0.5)
+    # stack sizes at and beyond the compiler's own limit: the guards of byte arrays (which have no separate length guard) rely on the
+    # free stack staying below half the address space - a configuration the compiler accepts must keep every fault detected
+    big = []
+    for el, val in (('byte', '7'), ('int', '7'), ('bool', 'true')):
+        src = ('empty @is_you(int n) { write("pre "); int canary = 1234; %s buf[n]; write("len "); write(buf.length); write(canary); write(" post"); }' % el)
+        for w, sizes in ((2, (16000, 16378, 16379, 16400, 20000, 30000, 32750)), (3, (2796000, 2796197, 2796198, 2800000, 4000000))):
+            H = 1 << (8 * w - 1)
+            for sz in sizes:
+                for n in (-H, -H + 1, -H + 2768, -(H * 7 // 8), -(H * 3 // 4), -(H // 2), -H // 4, -1, H - 1, 3):
+                    big.append(('bigstack_%s_w%d_s%d_%d' % (el, w, sz, len(big)), src, [str(n)], w, sz, False, 300000))
+    if ctx.quick: big = [b for b in big if b[3] == 2]
+    suites.differential(ctx, big, None, label='huge-stacks')
+    ctx.stats['huge_stack_configurations'] = len(big)
     suites.conformance(ctx, jobs[:ctx.budget(400, 3000)])
     tally, bad, res = suites.differential(ctx, jobs, None, label='fault-injection', must_compile_prefixes=('f2_', 'f3_', 'f4_', 'f8_'))
     flags = {}
